@@ -483,7 +483,8 @@ def terminators(ses, rep, funcs):
 SCENARIOS_EXTRA = {
     "crash": ({"a.lua": clireplay.UNFORMATTED, "m.lua": CRASH.replace("\\n", "\n"), "n.lua": clireplay.UNFORMATTED, "z.lua": clireplay.UNFORMATTED},
               ["--verify", "--num-threads", "1", "a.lua", "m.lua", "n.lua", "z.lua"],
-              lambda r: ("a crash while formatting one file left other files unformatted" if any(
+              lambda r: (None if "panicked" not in r["err"] else        # (no crashing input is known for the repaired tree: the scenario then says nothing)
+                         "a crash while formatting one file left other files unformatted" if any(
                   r["after"][k][0].decode() != clireplay.FORMATTED for k in ("a.lua", "n.lua", "z.lua")) else
                   "crashing file was modified" if clireplay.changed(r, "m.lua", True) else
                   "exit status is %d, not 2" % r["rc"] if r["rc"] != 2 else None)),
